@@ -18,7 +18,7 @@ type Schema struct {
 
 	pattern       string
 	compileOnce   sync.ErrOnce
-	generatorOnce sync.ErrOnceWithValue[*reggen.Generator]
+	exampleOnce   sync.ErrOnceWithValue[[]byte]
 	generatorSeed int64
 }
 
@@ -75,20 +75,24 @@ func (s *Schema) Example() ([]byte, error) {
 	return s.generateExample()
 }
 
+// generateExample returns the example of this type. It is generated once: the
+// generator is not safe for concurrent use and advances with every call, and
+// the example of a type must not depend on how often it was asked for.
 func (s *Schema) generateExample() ([]byte, error) {
-	g, err := s.generatorOnce.Do(func() (*reggen.Generator, error) {
+	ex, err := s.exampleOnce.Do(func() ([]byte, error) {
 		g, err := reggen.NewGenerator(s.pattern)
 		if err != nil {
 			return nil, err
 		}
 		g.SetSeed(s.generatorSeed)
-		return g, nil
+		return []byte(g.Generate(1)), nil
 	})
 	if err != nil {
 		return nil, err
 	}
 
-	return []byte(g.Generate(1)), nil
+	// The caller gets bytes of its own.
+	return append([]byte(nil), ex...), nil
 }
 
 func (*Schema) AddType(string, jschema.Schema) error {
